@@ -35,8 +35,9 @@ class AsyncSocket(base_socket.BaseSocket):
 
     async def receive(self, pkt):
         """Receive packet from the client."""
-        if self.closed:
-            # nothing received after the session ended is acted upon
+        if self.closed or self.closing:
+            # nothing received after the session ended (or while its
+            # disconnect handler is still running) is acted upon
             raise exceptions.SocketIsClosedError()
         packet_name = packet.packet_names[pkt.packet_type] \
             if pkt.packet_type < len(packet.packet_names) else 'UNKNOWN'
